@@ -219,8 +219,8 @@ func sweepAt(sc *Scenario, k int) *Scenario {
 			if op.CancelSrc == SrcCtxCancel || op.CancelSrc == SrcResultCancel {
 				op.CancelStep = k
 			}
-			if op.Kind == "fault" {
-				op.CancelStep = k
+			if op.ProbeStep != 0 {
+				op.ProbeStep = k
 			}
 		}
 	}
